@@ -26,7 +26,9 @@ Bounded(T) == \A n \in 1..Len(T.data) : T.data[n] \in (-ValueBound)..ValueBound
 
 WellFormed(e) ==
     /\ {"id", "cfg", "in", "runs"} \subseteq DOMAIN e
-    /\ {"op", "fshapes", "wlen", "coreshape", "pshapes", "hasw", "pden", "bad", "skip", "tr", "modes", "mix", "dens", "cden", "imk", "outdtype"} \subseteq DOMAIN e.cfg
+    /\ {"op", "fshapes", "wlen", "coreshape", "pshapes", "hasw", "pden", "bad", "skip", "tr", "modes", "mix", "dens", "cden", "imk", "outdtype", "late", "mag", "bfshapes"} \subseteq DOMAIN e.cfg
+    /\ e.cfg.late \in BOOLEAN /\ e.cfg.mag \in -600..600
+    /\ (e.cfg.late => "base" \in DOMAIN e.in /\ "fs" \in DOMAIN e.in.base /\ TensOKs(e.in.base.fs))
     /\ e.cfg.op \in Kinds
     /\ e.cfg.tr \in BOOLEAN /\ e.cfg.skip \in -1..8 /\ \A j \in 1..Len(e.cfg.modes) : e.cfg.modes[j] \in 0..8
     /\ (HasOpt(e.cfg) => e.cfg.op = "tucker" /\ e.cfg.bad = "none")       \* view options exist for Tucker only
@@ -59,6 +61,7 @@ InDomain(e) ==
     /\ (c.op = "tucker" => in.core.shape = c.coreshape)
     /\ (c.op = "p2" => [k \in 1..Len(in.ps) |-> in.ps[k].shape] = c.pshapes /\ in.pden = c.pden)
     /\ (c.op = "cp" /\ Valid("cp", in) => in.mask.shape = CPShape(in))
+    /\ (c.late => [k \in 1..Len(in.base.fs) |-> in.base.fs[k].shape] = c.bfshapes)     \* the object was built from the exported base
 
 SameT(a, T) == a.shape = T.shape /\ a.data = T.data
 
@@ -89,8 +92,9 @@ Verdict(e) ==
         inI  == [in EXCEPT !.fs[c.imk] = in.im]          \* only used when cplx
         DI   == Dense(kd, inI)
         needviews == c.modes = <<>>
-        needmeta  == ~opt
-        neednorm  == ~opt /\ c.mix = "none"
+        \* after parts were replaced the cached .shape / .rank attributes are stale by design: only the conversions are obliged
+        needmeta  == ~opt /\ ~c.late
+        neednorm  == ~opt /\ c.mix = "none" /\ ~c.late
         N  == Len(D.shape)
         n2 == Norm2(D)
         \* logged tensor x against the exact tensor (real part Tre, imaginary part Tim)
